@@ -2,7 +2,20 @@
 
 REAL = ["every package of /repo (instrumented scratch copy of the current working tree)", "gnark-crypto (uninstrumented: its goroutines run as part of the calling task's step)", "Go runtime, testing/synctest bubble"]
 
+STUB_SCHED = ["entropy source (keyed PRF behind crypto/rand.Reader)", "goroutine scheduler (seeded token scheduler; real goroutines used as coroutines)", "map iteration order (canonical order + tape permutation)"]
+
 CHECKS = {
+    "C06": {
+        "engine": "c06",
+        "level": "exploration",
+        "rule": "one evaluation = one Solve under a tape-chosen schedule and task count, checked against the exported constraints with math/big, the program evaluator's verdict "
+                "and the sequential solution; a case = (field, builder, generated circuit, witness, nbTasks, restored-from-bytes, fault); distinct_nontrivial counts distinct case descriptors",
+        "quick": {"runs": 1600, "budget_s": 200, "selftest_runs": 6, "params": {"slots": 40}},
+        "thorough": {"runs": 60000, "budget_s": 2400, "race_runs": 3000, "race_budget_s": 1200, "selftest_runs": 8, "params": {"slots": 80}},
+        "expect_probes": ["solver_task_sent", "restored_from_bytes", "hint_error", "wrong_size_witness", "field:tinyfield", "field:babybear"],
+        "components": {"real": REAL, "stub": STUB_SCHED + ["hint function under fault (returns an injected error at invocation k)"]},
+        "assumptions": ["the generated programs' big-integer evaluator is the reference for 'the witness satisfies the circuit'", "constraints are read through the exported accessors (GetR1Cs / GetSparseR1Cs / GetCoefficient)", "gnark-crypto field arithmetic is correct"],
+    },
     "C10": {
         "engine": "c10",
         "level": "exploration",
